@@ -23,6 +23,8 @@ version's own descriptor); the verdict evaluates `Spec.Reflection` on the *obser
   route-name-is-protocol-name     the generated servers register under the protocol's service names
   own-service-advertised-under-route-name   with the own descriptor included, the name a server is routed by is
                                   a service that descriptor declares (so what ListServices advertises can be called)
+  own-descriptor-declares-protocol-service   the descriptor a version includes as its own declares that version's
+                                  ServerReflection service
   versions-agree                  v1 and v1alpha answer identically: literally when the own descriptors
                                   are not included; otherwise on every stream up to the first request
                                   that names something of an own descriptor, service lists up to the
@@ -563,6 +565,12 @@ def handle (case obs : List String) : String × String :=
         let o1s := o1.take (o1.length - rest1.length)
         let clauses := judgeVersion c own1 b1 ++ judgeVersion c own1a b1a
           ++ judgeNames c rest1
+          -- the descriptor a version includes as its own is that version's reflection.proto
+          ++ (match c.own with
+              | some (x1, x1a) => [("own-descriptor-declares-protocol-service",
+                  Spec.Reflection.declaresService x1 Spec.Reflection.protocolNameV1
+                    && Spec.Reflection.declaresService x1a Spec.Reflection.protocolNameV1alpha)]
+              | none => [])
           ++ [("versions-agree", versionsAgree c o1s o1a b1 b1a)]
         verdict clauses
       | _ => "fail:observed-shape"
